@@ -221,6 +221,17 @@ func runStartRandom(c *Ctx, n int) {
 		if len(p4) == 0 && len(p6) == 0 {
 			continue
 		}
+		// one list shared by both sections: a plugin listed under a protocol it has no set-up for is
+		// skipped with a warning (the model leaves it out), never an empty slot in the chain
+		if len(p6) > 0 && r.Pct(35) {
+			at := r.Intn(len(p6) + 1)
+			extra := []chainPlug{{"lease_time", []string{"1h"}}, {"router", []string{"10.0.0.254"}}, {"netmask", []string{"255.255.255.0"}}, {"range", []string{"$DIR/leases-unused.sqlite3", "10.0.0.10", "10.0.0.12", "1h"}}}[r.Intn(4)]
+			p6 = append(p6[:at:at], append([]chainPlug{extra}, p6[at:]...)...)
+		}
+		if len(p4) > 0 && r.Pct(35) {
+			at := r.Intn(len(p4) + 1)
+			p4 = append(p4[:at:at], append([]chainPlug{{"prefix", []string{"2001:db8:0:100::/62", "64"}}}, p4[at:]...)...)
+		}
 		spec := startSpec(p4, p6)
 		relay := relayOf(spec)
 		var held []net.IPNet
